@@ -278,3 +278,49 @@ package packfile
 //gvc:  modifies e.#packid
 //gvc:  ensures id: err == nil ==> e.#packid == keyid(ph)
 //gvc:end
+
+// ---- delta selection (property C07: the pack contains the requested objects
+// with identical types and contents). An object written as a delta decodes
+// with the type of its base, so a base must have the type of its target, and
+// the metadata (type, id, size) of an object must be saved before its original
+// is dropped, or Type / Hash / Size would answer from the delta base instead.
+// #otype: the type of the object an ObjectToPack stands for (trusted: Type() is
+// a deterministic function of the entry; it is not followed through its four
+// sources here).
+//gvc:ghost ObjectToPack.otype int
+
+//gvc:func (*ObjectToPack).Type
+//gvc:  trusted
+//gvc:  params o
+//gvc:  ensures result == o.#otype
+//gvc:end
+
+//gvc:func (*ObjectToPack).SaveOriginalMetadata
+//gvc:  props C07
+//gvc:  theory int
+//gvc:  opt coarse
+//gvc:  opt frame args
+//gvc:  modifies o.originalSize, o.originalType, o.originalHash, o.resolvedOriginal
+//gvc:  ensures saved: o.Original != nil ==> o.resolvedOriginal
+//gvc:  ensures kept: old(o.resolvedOriginal) ==> o.resolvedOriginal
+//gvc:end
+
+//gvc:func (*ObjectToPack).CleanOriginal
+//gvc:  props C07
+//gvc:  theory int
+//gvc:  modifies o.Original
+//gvc:  ensures dropped: o.Original == nil
+//gvc:end
+
+//gvc:func (*DeltaSelector).walk
+//gvc:  props C07
+//gvc:  theory int
+//gvc:  opt coarse
+//gvc:  opt frame args
+//gvc:  requires objs: forall(a, 0, len(objectsToPack), objectsToPack[a] != nil)
+//gvc:  loop 1 invariant pos: it1 >= 0
+//gvc:  loop 2 invariant win: j < i
+//gvc:  sink CleanOriginal requires saved: recv.resolvedOriginal || recv.Original == nil
+//gvc:  sink tryToDeltify requires sametype: arg1.#otype == arg2.#otype
+//gvc:  sink tryToDeltify requires window: 0 <= j && j < i && i - j < packWindow
+//gvc:end
